@@ -47,6 +47,11 @@ POOL = [
     ({"type": "record", "name": "Dec", "fields": [{"name": "d", "type": {"type": "bytes", "logicalType": "decimal", "precision": 30, "scale": 2}}]}, [{"d": __import__("decimal").Decimal("1234567890123456789012345678.90")}], {"d": 1.5}),
     ({"type": "record", "name": "Arr", "fields": [{"name": "xs", "type": {"type": "array", "items": "int"}, "default": [1, 2]}, {"name": "m", "type": {"type": "map", "values": "string"}, "default": {"k": "v"}}]}, [{}, {"xs": [3]}], {"xs": 5}),
     ({"type": "record", "name": "Bad", "fields": [{"name": "x", "type": "int", "default": "notint"}]}, [{"x": 1}], {}),
+    ({"type": "record", "name": "Nest", "fields": [{"name": "xss", "type": {"type": "array", "items": {"type": "array", "items": "int"}}, "default": [[1, 2], [3]]},
+                                                   {"name": "ma", "type": {"type": "map", "values": {"type": "array", "items": "string"}}, "default": {"k": ["a", "b"]}},
+                                                   {"name": "rd", "type": {"type": "record", "name": "Inner", "fields": [{"name": "flags", "type": {"type": "array", "items": "boolean"}}]}, "default": {"flags": [True, False]}}]},
+     [{}, {"xss": [[9]]}], {"xss": 5}),
+    ({"type": "record", "name": "Dec", "fields": [{"name": "d", "type": {"type": "bytes", "logicalType": "decimal", "precision": 8}}]}, [{"d": __import__("decimal").Decimal("1234")}, {"d": __import__("decimal").Decimal("-7")}], {"d": "x"}),
 ]
 
 _ADDR = re.compile(r"0x[0-9a-fA-F]+")
@@ -202,10 +207,15 @@ class ForkServer:
                 os.close(cr)
                 try:
                     chain = pickle.loads(payload)
-                    slots = {}
-                    out = None
-                    for call in chain:
-                        out, _ = run_call(call, slots)
+                    if isinstance(chain, tuple) and chain and chain[0] == "call":
+                        import importlib
+                        mod = importlib.import_module(chain[1])
+                        out = getattr(mod, chain[2])(*chain[3])
+                    else:
+                        slots = {}
+                        out = None
+                        for call in chain:
+                            out, _ = run_call(call, slots)
                     data = pickle.dumps(out)
                 except BaseException as e:  # noqa
                     data = pickle.dumps(("harness", repr(e)))
@@ -335,7 +345,7 @@ class C17(Check):
                 elif op == "jwrite":
                     calls.append({"op": "jwrite", "schema": schema, "records": [d.choice(good) for _ in range(d.rng(1, 2))]})
                 elif op == "jread":
-                    calls.append({"op": "jread", "schema": schema, "text": d.choice(['{"a": 1}', '{"a": "s"}', '"A"', '{}', '{"e": "A"}', '{"legs": 4}', '{"xs": [5], "m": {}}', '{"m": {"q": "r"}}', '{"item": {"sku": "z"}}'])})
+                    calls.append({"op": "jread", "schema": schema, "text": d.choice(['{}', '{"a": 1}', '{"a": "s"}', '"A"', '{}\n{}', '{"e": "A"}', '{"legs": 4}', '{"xs": [5], "m": {}}', '{"m": {"q": "r"}}', '{"item": {"sku": "z"}}', '{"xss": [[7]]}\n{}\n{}'])})
                 elif op == "canon":
                     calls.append({"op": "canon", "schema": schema})
                 elif op == "generate":
